@@ -31,8 +31,18 @@ OnStep(e) ==
       stoleS == e.a \in SenderCleanup /\ (taken(b.local, a.local) \/ taken(b.send, a.send))
       stoleR == e.a \in ReceiverCleanup /\ (taken(b.active, a.active) \/ taken(b.ack, a.ack)
                                             \/ (b.cancel # 0 /\ a.cancel = 0 /\ b.active \notin {0, k}))
+      \* mid-run form of "newest" for receivers: once the newest receiver incarnation ever started has completed its registration
+      \* (pc running) the ack-channel and active-receiver registries name it - also while older incarnations are still around
+      D == DOMAIN a.pcR
+      \* the newest incarnation ever started (older ones are terminated by it, whatever the harness' pc says about them)
+      Started == {"1", "2", "3"} \cap D
+      Num(x) == IF x = "1" THEN 1 ELSE IF x = "2" THEN 2 ELSE 3
+      newestR == IF "3" \in Started THEN "3" ELSE IF "2" \in Started THEN "2" ELSE "1"
+      midBad == e.ok /\ Started # {} /\ a.pcR[newestR] = "running"
+                /\ (a.ack # Num(newestR) \/ a.active # Num(newestR))
   IN /\ FlagAll((IF e.crash # "" /\ ~crashSeen THEN {<<l, "crash", e.a, k>>} ELSE {})
-                \cup (IF stoleS \/ stoleR THEN {<<l, "stole", e.a, k>>} ELSE {}))
+                \cup (IF stoleS \/ stoleR THEN {<<l, "stole", e.a, k>>} ELSE {})
+                \cup (IF midBad THEN {<<l, "newest", "R", Num(newestR)>>} ELSE {}))
      /\ crashSeen' = (crashSeen \/ e.crash # "")
 OnSettled(e) ==
   LET s == e.snap
